@@ -5,6 +5,7 @@ import (
 	"fmt"
 	"os"
 	"path/filepath"
+	"regexp"
 	"sort"
 	"strings"
 
@@ -159,8 +160,37 @@ func (x *run) stepRemoveChecked(rs *repState, s *sim.Step) error {
 			return identity.Remove(r.Sim, entity.Id(id))
 		}
 	}
+	// a first attempt cut short by a local I/O error (one call, or everything from some call on),
+	// then the removal proper: a removal that reports success after that must have removed all of it
+	interrupted := false
+	if s.A%5 == 1 && !strings.HasSuffix(s.K, "cli") && r.C != nil {
+		r.C.ArmErr("any", s.N%5, []int{1, 1000}[s.N/5%2])
+		err0 := x.guard("remove, interrupted", remove)
+		if r.C.DisarmErr() > 0 {
+			interrupted = true
+			x.w.Stats.Fault("ioerr-any")
+			x.probe("removal_first_attempt_met_an_io_error")
+			if err0 == nil {
+				x.probe("io_error_not_reported_by_the_step")
+			}
+			if s.N/5%2 == 1 {
+				// while every call fails nothing can be cleaned up either: a temporary clock file
+				// left by the interrupted attempt is not the removal's doing
+				for k, v := range x.frameOf(rs).Files {
+					if _, ok := before.Files[k]; !ok && tempClockRe.MatchString(k) {
+						before.Files[k] = v
+						x.probe("temporary_file_left_while_every_call_failed")
+					}
+				}
+			}
+		}
+	}
 	err := x.guard("remove", remove)
 	if x.res.HarnessErr != "" {
+		return err
+	}
+	if err != nil && interrupted {
+		x.probe("removal_after_interrupted_attempt_refused")
 		return err
 	}
 	if err != nil {
@@ -245,6 +275,8 @@ func (x *run) stepRemoveChecked(rs *repState, s *sim.Step) error {
 	}
 	return nil
 }
+
+var tempClockRe = regexp.MustCompile(`^clock[0-9]+$`)
 
 func frameDiff(a, b *frame, except map[string]bool) string {
 	var d []string
